@@ -40,7 +40,7 @@ echo "demo with change rc=$W (want != 0); without rc=$WO (want 0); suite with ch
 # the checks run from a scratch clone of the committed /verif (own build output, own work/evidence/
 # replays directories) against the scratch worktree itself (it holds the change): neither /repo nor
 # /verif's evidence is touched, and other runs in /verif are not disturbed
-VS=/tmp/verif_seed
+VS=${VERIF_SEED_CLONE:-/tmp/verif_seed}
 [ -d $VS/.git ] || git clone -q /verif $VS
 git -C $VS fetch -q origin && git -C $VS reset -q --hard FETCH_HEAD
 cd $VS
